@@ -40,7 +40,10 @@ from .scheduler import OptimizationStrategy
 from .tensor import MemArea
 from .tensor import MemType
 from .tensor import Tensor
+from .tensor import TensorAddressMap
+from .tensor import create_equivalence_id
 from .utils import progress_print
+from .weight_compressor import CompressedWeightCache
 
 
 class CompilerOptions:
@@ -158,6 +161,12 @@ def _check_schedule(nng, arch, scheduler_options):
 def compiler_driver(nng, arch, options, scheduler_options, network_type, output_basename, subgraph_output = False):
     assert verify_graph_health(nng)
     verbose_progress = scheduler_options.verbose_progress
+
+    # State recorded by an earlier compilation in this process (tensor addresses, value-keyed equivalence ids and the
+    # compressed weights cached under them) must not leak into this one
+    TensorAddressMap.clear_address_map()
+    CompressedWeightCache.cache.clear()
+    create_equivalence_id.cache_clear()
 
     # Pre-optimisation operator tracking
     for sg in nng.subgraphs:
